@@ -111,12 +111,12 @@ def _calls(rng, fx, n):
     for _ in range(n):
         ob = rng.choice(fx.names + fx.names[-2:] * 2)
         fn = rng.choice(FN + ['f9'])
-        kind = rng.choice(('co', 'co', 'cco', 'cco', 'aco', 'aco', 'self', 'sself', 'local', 'super', 'fp', 'callout', 'scallout', 'cmd', 'reload'))
+        kind = rng.choice(('co', 'co', 'cco', 'cco', 'aco', 'aco', 'self', 'sself', 'local', 'super', 'fp', 'callout', 'scallout', 'cmd', 'reload', 'sco', 'coldsco', 'coldsco', 'saco'))
         lvl = rng.choice(fx.closure(ob))
-        if kind == 'aco':
-            # array form of call_other: two to four targets, the interesting one not first
+        if kind in ('aco', 'saco'):
+            # array form of call_other (objects, or file names that the driver finds or loads): two to four targets, the interesting one not first
             others = [rng.choice(fx.names) for _ in range(rng.randint(1, 3))]
-            out.append(('aco', ob, ','.join(others + [ob] if rng.random() < 0.7 else [ob] + others), fn))
+            out.append((kind, ob, ','.join(others + [ob] if rng.random() < 0.7 else [ob] + others), fn))
             continue
         if rng.random() < 0.2:
             # the same name through the compiled call and through the run-time lookup (agreement oracle)
@@ -131,6 +131,9 @@ def _cycles(call, idx):
     tgt = '/c/' + ob
     if kind == 'co': return [send(0, 'do xco %d %s %s\r\n' % (idx, tgt, fn))]
     if kind == 'aco': return [send(0, 'do xaco %d %s %s\r\n' % (idx, fn, ' '.join('/c/' + x for x in lvl.split(','))))]
+    if kind == 'saco': return [send(0, 'do xreload %s;xsaco %d %s %s\r\n' % (tgt, idx, fn, ' '.join('/c/' + x for x in lvl.split(','))))]
+    if kind == 'sco': return [send(0, 'do xsco %d %s %s\r\n' % (idx, tgt, fn))]
+    if kind == 'coldsco': return [send(0, 'do xreload %s;xsco %d %s %s\r\n' % (tgt, idx, tgt, fn))]     # the target is loaded by the call itself
     if kind == 'cco': return [send(0, 'do xco %d /c/caller co_%s %s\r\n' % (idx, fn, tgt))]
     if kind == 'sself': return [send(0, 'do xco %d %s sco_%s_%s\r\n' % (idx, tgt, ob, fn))]
     if kind == 'scallout': return [send(0, 'do xco %d %s sout_%s_%s\r\n' % (idx, tgt, ob, fn)), tick(), 'idle']
@@ -208,8 +211,8 @@ def _outcomes(res):
     for e in res.events:
         if e.kind != 'R': continue
         w = e.rest.split(' ')
-        if w[0] == 'DO' and len(w) > 2 and ('xco' in w[2:] or 'xaco' in w[2:] or 'xreload' in w[2]):
-            m = re.search(r'xa?co (\d+) ', e.rest)
+        if w[0] == 'DO' and len(w) > 2 and ('xco' in w[2:] or 'xaco' in w[2:] or 'xsco' in w[2:] or 'xsaco' in w[2:] or 'xreload' in w[2]):
+            m = re.search(r'xs?a?co (\d+) ', e.rest)
             cur = int(m.group(1)) if m else None
             if cur is not None: out[cur] = {'r': None, 'f': [], 'err': []}
         elif cur is not None and w[0] == 'F': out[cur]['f'].append(w[1])
@@ -247,7 +250,7 @@ def _expect(fxm, call):
             r = path_mods(q, target)
             if r is not None: return [m] + r
         return None
-    if kind == 'aco':
+    if kind in ('aco', 'saco'):
         parts = []; fs = []
         for x in lvl.split(','):
             dx = _lookup(fxm, x, fn)
@@ -259,7 +262,7 @@ def _expect(fxm, call):
             if mod in ('static', 'private', 'protected'): parts.append('int:0')
             else: parts.append(tag); fs.append(tag)
         return ('r', 'arr:' + ','.join(parts), fs)
-    if kind in ('co', 'cco', 'self', 'sself', 'reload'):
+    if kind in ('co', 'cco', 'self', 'sself', 'reload', 'sco', 'coldsco'):
         if d is None: return ('r', 'int:0', [])
         prog, mod = d
         pm = path_mods(ob, prog) or []
